@@ -213,7 +213,11 @@ func (w *World) resolveFuncName(pkg, name string) string {
 	if strings.HasPrefix(name, "(") {
 		// a receiver that is not a type of the package (e.g. a type parameter) stays as written
 		if i := strings.Index(name, ")"); i > 0 {
-			if p := w.pkgs[pkg]; p != nil && p.Types != nil && p.Types.Scope().Lookup(name[1:i]) == nil {
+			tn := name[1:i]
+			if k := strings.Index(tn, "["); k > 0 {
+				tn = tn[:k]
+			}
+			if p := w.pkgs[pkg]; p != nil && p.Types != nil && p.Types.Scope().Lookup(tn) == nil {
 				return name
 			}
 		}
